@@ -7,3 +7,4 @@ import X86Model.Properties.C05
 import X86Model.Properties.C18
 import X86Model.Properties.C17
 import X86Model.Properties.C16
+import X86Model.Properties.C11
